@@ -365,9 +365,20 @@ fn run_shard<C: Check>(tier: Tier, seed: u64, shard: u32, cases: u32, known: &Kn
 }
 
 pub fn verif_root() -> PathBuf {
-    std::env::var_os("VERIF_ROOT")
-        .map(PathBuf::from)
-        .unwrap_or_else(|| PathBuf::from("/verif"))
+    if let Some(p) = std::env::var_os("VERIF_ROOT") {
+        return PathBuf::from(p);
+    }
+    // walk up from the executable: <root>/target/<profile>/<profile>/vcheck
+    if let Ok(exe) = std::env::current_exe() {
+        let mut d = exe.as_path();
+        while let Some(parent) = d.parent() {
+            if parent.join("properties.jsonl").exists() && parent.join("harness").exists() {
+                return parent.to_path_buf();
+            }
+            d = parent;
+        }
+    }
+    PathBuf::from("/verif")
 }
 
 #[derive(Serialize, Deserialize)]
